@@ -92,6 +92,32 @@ theorem compressor_gap (near : Int) (cs : List Chunk) : NoClose (nearClose near)
   | nil => trivial
   | cons c cs => exact mergeLoop_noClose _ (nearClose_closeB near) c cs
 
+/-- the same in the documentation's own terms (exact integers, no wrap-around), for EVERY threshold: when
+the file offsets of the input are valid (`0 ≤ File < 2^63`), no two neighbours of the result have block
+starts within `near` of each other -/
+theorem compressor_gap_exact (near : Int) (cs : List Chunk)
+    (hb : ∀ c, c ∈ cs → 0 ≤ c.b.file ∧ c.b.file < 2 ^ 63 ∧ 0 ≤ c.e.file ∧ c.e.file < 2 ^ 63) :
+    NoClose (nearCloseExact near) (compressor near cs) := by
+  cases cs with
+  | nil => trivial
+  | cons c cs =>
+    refine noClose_congr (nearClose near) (nearCloseExact near)
+      (fun a => 0 ≤ a.b.file ∧ a.b.file < 2 ^ 63 ∧ 0 ≤ a.e.file ∧ a.e.file < 2 ^ 63) ?_ _ ?_
+      (compressor_gap near (c :: cs))
+    · intro a b ha hb'
+      have e : wrap64 (b.b.file - a.e.file) = b.b.file - a.e.file := wrap64_id _ (by omega) (by omega)
+      simp only [nearClose, nearCloseExact, e]
+      congr 1; apply propext; omega
+    · intro x hx
+      obtain ⟨y, hy, e⟩ := mergeLoop_ends _ c cs x hx
+      obtain ⟨y', hy', e'⟩ := mergeLoop_begins _ c cs x hx
+      rw [e, e']; exact ⟨(hb y' hy').1, (hb y' hy').2.1, (hb y hy).2.2.1, (hb y hy).2.2.2⟩
+
+/-- also at the largest threshold: everything merges (before repair 4 of C17 the sum `End.File+near`
+wrapped negative and nothing merged) -/
+theorem compressor_max_threshold_witness :
+    compressor (2 ^ 63 - 1) [⟨⟨0, 0⟩, ⟨1, 0⟩⟩, ⟨⟨1, 0⟩, ⟨2, 0⟩⟩] = [⟨⟨0, 0⟩, ⟨2, 0⟩⟩] := by decide
+
 /-! ### applying a strategy twice changes nothing -/
 theorem adjacent_idempotent (cs : List Chunk) : adjacent (adjacent cs) = adjacent cs := by
   cases cs with
